@@ -54,7 +54,7 @@ Definition model_agrees (c : case) : bool :=
 Definition exec_spec_demands (a : algo) (jt : jtype) (n : Z) (swapped : bool) (lk rk : list nat) : bool :=
   (length lk =? length rk)%nat && (0 <? n) &&
   negb (swapped && (left_outer jt || right_outer jt)).     (* `swapped` is only planned for inner joins *)
-Definition exec_jt (a : algo) (jt : jtype) : jtype := JInner.
+Definition exec_jt (a : algo) (jt : jtype) : jtype := match a with AGraceStatic => JInner | _ => jt end.
 
 Definition spec_ok (c : case) : bool :=
   match c with
